@@ -20,8 +20,8 @@ ASSUMPTIONS = [
 ]
 MANIFEST = {'text': 'structural necessary conditions: matches() can only return false (disabled), negated or !negated and treats a missing extended header as a failed criterion; '
                     'every criterion field matched on is serialised and every serialised key is parsed back; the case-insensitive literal matcher exists only under the ignore-case flag.'
-                    ' Added: no default is substituted for an unspecified criterion; the short JSON form of the message-type criterion is written only for the mask it is reloaded with; scratch buffers of the text front-ends are re-initialised between two ids. Added: text taken from the input reaches the filter verbatim in every front-end (no trim / case folding / replace in the provenance of a text sink).',
-            'technique': 'static analysis: MIR return-value census, read-set / string-key table agreement, control-dependence (dominating guard) check'}
+                    ' Added: no default is substituted for an unspecified criterion; the short JSON form of the message-type criterion is written only for the mask it is reloaded with; scratch buffers of the text front-ends are re-initialised between two ids. Added: text taken from the input reaches the filter verbatim in every front-end (no trim / case folding / replace in the provenance of a text sink). Added: the compiled matcher of a literal ignore-case payload is built from regex::escape(text).',
+            'technique': 'static analysis: MIR return-value census, read-set / string-key table agreement, control-dependence (dominating guard) check Added: list criteria (lifecycles) are tested by order-independent membership in matches() (no binary search / first / last on a list whose order the configuration decides).'}
 
 FILTER = 'adlt::filter::filter_impl::Filter'
 DERIVED = {'payload_as_regex': 'cache derived from payload + ignore_case_payload'}
@@ -84,9 +84,47 @@ def run(F, chk):
     check_verbatim_text(F, F7)
     F8 = chk.rule('F8', 'front-ends: the regex auto-detection decides only when the explicit is-regex flag is absent (an explicit false is honoured)')
     check_autodetect_only_when_absent(F, F8)
+    F9 = chk.rule('F9', 'the regex compiled for a *literal* payload (ignore-case matcher `payload_as_regex`) is built from regex::escape(text)')
+    check_literal_regex_escaped(F, F9)
+    F10 = chk.rule('F10', 'matches() tests a list criterion (lifecycles) by order-independent membership: no binary search / partition / first / last on a list of the filter (its order is whatever the configuration gave)')
+    check_list_membership(F, m, F10)
 
 
 HELPERS_OF_MATCHES = []
+
+ORDER_ASSUMING = re.compile(r'::(binary_search|binary_search_by|binary_search_by_key|partition_point|first|last|split_first|split_last|is_sorted|is_sorted_by|is_sorted_by_key|dedup)$')
+MEMBERSHIP = re.compile(r'::(contains|iter|is_empty|len|into_iter|as_slice|deref|as_ref|any|all)$')
+
+
+def check_list_membership(F, m, F10):
+    """"the lifecycle is a member of the list": the list is public data filled in configuration order (from_json keeps the order
+    of the JSON array).  A test that is only correct on sorted input (binary_search, partition_point) or looks at one end of the
+    list reports members of an unsorted list as missing - the decision then depends on the spelling of the filter, not on its
+    meaning, and survives the JSON round trip."""
+    n = 0
+    for b in [m] + list(HELPERS_OF_MATCHES) + [c for c in F.closures_of(m.path)]:
+        cfg = CFG(b)
+        F10.fn(b.path)
+        for blk in b.calls():
+            t = blk.term
+            if not t.args or t.args[0].place is None:
+                continue
+            ty = t.args[0].ty or ''
+            if not re.match(r'^&(mut )?(\[|std::vec::Vec<)', ty):
+                continue
+            pl = cfg.origin_of_operand(t.args[0])
+            fl = [e for e in (pl.p if pl is not None else []) if e['k'] == 'f']
+            if not fl or not any(e.get('o') == FILTER for e in fl):
+                continue
+            n += 1
+            F10.sites += 1
+            fld = [e['n'] for e in fl if e.get('o') == FILTER][-1]
+            nm = t.callee.path.split('::')[-1]
+            if ORDER_ASSUMING.search(t.callee.path):
+                F10.violation(('list-criterion-order-dependent', fld, nm), 'matches() applies %s to the filter list `%s` at %s: the result depends on the order of the list, which is whatever the configuration gave - members of an unsorted list are reported missing' % (nm, fld, b.loc(t.sp)), where=b.loc(t.sp))
+            else:
+                F10.ok(sample={'list': fld, 'operation': nm, 'at': b.loc(t.sp)})
+    F10.floor('operations on list criteria in matches()', n, 1)
 
 
 def check_matches_shape(m, F3):
@@ -119,7 +157,7 @@ def check_matches_shape(m, F3):
         if b.term.k == 'call' and b.term.dest.is_local and b.term.dest.l == 0:
             F3.violation(('returns-call', m.path, b.term.callee.path), 'matches() returns the result of %s' % b.term.callee.path, where=m.loc(b.term.sp))
     F3.ok(sample={'negated_returns': n_neg, 'not_negated_returns': n_not, 'false_returns': n_false})
-    F3.floor('`negated` return sites', n_neg, 20)
+    F3.floor('`negated` return sites', n_neg, 8)
     F3.floor('`!negated` return sites', n_not, 1)
     F3.floor('`false` return sites', n_false, 1)
     if n_not > 1:
@@ -148,14 +186,50 @@ def check_matches_shape(m, F3):
             none_t = sw.term.d['otherwise']
         ok = False
         if none_t is not None:
+            # walk forward from the None edge with the constants it stores (`None => false` .. `if !matched { return negated }`)
             cur = m.blocks[none_t]
-            for _ in range(6):
-                defs = [s for s in cur.stmts if s.k == 'assign' and s.place.is_local and s.place.l == 0]
-                if defs:
-                    e = E.rvalue(defs[-1].rv)
-                    ok = isinstance(e, tuple) and e[0] == 'place' and e[-1] == '.negate_match'
+            env = {}
+            for _ in range(14):
+                done = False
+                for s in cur.stmts:
+                    if s.k != 'assign' or not s.place.is_local or s.place.p:
+                        continue
+                    if s.place.l == 0:
+                        e = E.rvalue(s.rv)
+                        ok = isinstance(e, tuple) and e[0] == 'place' and e[-1] == '.negate_match'
+                        done = True
+                        break
+                    rv = s.rv
+                    val = None
+                    if rv['k'] in ('use', 'cast'):
+                        o = Operand(rv['o'])
+                        if o.is_const and isinstance(o.value, (int, bool)):
+                            val = int(o.value)
+                        elif o.place is not None and o.place.is_local and not o.place.p:
+                            val = env.get(o.place.l)
+                    elif rv['k'] == 'un' and rv['op'] == 'Not':
+                        o = Operand(rv['a'])
+                        v0 = env.get(o.place.l) if (o.place is not None and o.place.is_local and not o.place.p) else (int(o.value) if o.is_const and isinstance(o.value, (int, bool)) else None)
+                        val = (1 - v0) if v0 in (0, 1) else None
+                    if val is None:
+                        env.pop(s.place.l, None)
+                    else:
+                        env[s.place.l] = val
+                if done:
                     break
                 if cur.term.k == 'goto':
+                    cur = m.blocks[cur.term.d['t']]
+                elif cur.term.k == 'switch':
+                    o = Operand(cur.term.d['d'])
+                    v0 = env.get(o.place.l) if (o.place is not None and o.place.is_local and not o.place.p) else None
+                    if v0 is None:
+                        break
+                    nt = cur.term.d['otherwise']
+                    for v, t in cur.term.d['vals']:
+                        if v == v0:
+                            nt = t
+                    cur = m.blocks[nt]
+                elif cur.term.k == 'drop':
                     cur = m.blocks[cur.term.d['t']]
                 else:
                     break
@@ -192,9 +266,31 @@ def json_keys(body, callee_suffix, argidx, _F=None, _depth=0):
                         keys.setdefault(mm.group(1), body.loc(t.sp))
         # keys handed to a private helper of the crate that looks them up (`char4_or_regex_from_json(&v, "ecu", "ecuIsRegex")`):
         # a string constant passed for a parameter that the helper uses as the key of the same kind of lookup
-        elif _F is not None and t.callee.path.startswith('adlt::') and _depth < 2:
+        elif _F is not None and (t.callee.path.startswith('adlt::') or (t.callee.path in ('std::ops::Fn::call', 'std::ops::FnMut::call_mut', 'std::ops::FnOnce::call_once') and t.callee.resolved)) and _depth < 2:
             H = _F.get(t.callee.resolved) if t.callee.resolved else _F.get(t.callee.path)
-            if H is None or H.kind == 'closure':
+            if H is None:
+                continue
+            if H.kind == 'closure':
+                # `let attr = |key, flag_key| .. v[key] ..; attr("ecu", "ecuIsRegex")`: the arguments arrive as one tuple
+                hcfg = CFG(H)
+                hE = ExprBuilder(hcfg)
+                used = set()
+                for hb in H.calls():
+                    ht = hb.term
+                    if ht.callee.path.endswith(callee_suffix) and len(ht.args) > argidx:
+                        for x in walk(hE.operand(ht.args[argidx])):
+                            if isinstance(x, tuple) and x and x[0] == 'place' and len(x) >= 2:
+                                used.add(x[1])
+                tup = E.operand(t.args[1]) if len(t.args) > 1 else None
+                if isinstance(tup, tuple) and tup[0] == 'agg' and tup[1] == 'tuple':
+                    for i, a in enumerate(tup[2]):
+                        pn = H.name_of(i + 2) or 'arg%d' % (i + 2)
+                        if pn in used:
+                            for x in walk(a):
+                                if isinstance(x, tuple) and x and x[0] == 'str':
+                                    mm = re.search(r'"([^"]*)"', x[1])
+                                    if mm:
+                                        keys.setdefault(mm.group(1), body.loc(t.sp))
                 continue
             hcfg = CFG(H)
             hE = ExprBuilder(hcfg)
@@ -565,14 +661,18 @@ def check_autodetect_only_when_absent(F, F8):
             F8.fn(x.path)
             why = None
             if x.kind == 'closure':
-                parent = F.get(x.closure_of) if x.closure_of else None
+                root = F.get(x.closure_of) if x.closure_of else None
                 import comparators
-                for pb in (parent.calls() if parent is not None else []):
-                    if re.search(r'Option::<T>::(unwrap_or_else|map_or_else)$', pb.term.callee.path):
-                        for a in pb.term.args[1:2]:
-                            c = comparators.closure_path_of(F, parent, a) if re.match(r'(&mut |&)?\{closure@', a.ty or '') else None
-                            if c is not None and c.path == x.path:
-                                why = 'default closure of %s on the explicit flag' % pb.term.callee.path.split('::')[-1]
+                parents = ([root] + list(F.closures_of(root.path))) if root is not None else []
+                for parent in parents:
+                    if parent is x:
+                        continue
+                    for pb in parent.calls():
+                        if re.search(r'Option::<T>::(unwrap_or_else|map_or_else)$', pb.term.callee.path):
+                            for a in pb.term.args[1:2]:
+                                c = comparators.closure_path_of(F, parent, a) if re.match(r'(&mut |&)?\{closure@', a.ty or '') else None
+                                if c is not None and c.path == x.path:
+                                    why = 'default closure of %s on the explicit flag' % pb.term.callee.path.split('::')[-1]
             if why is None:
                 cfg = cfg or CFG(x)
                 E = E or ExprBuilder(cfg, fold_named=True)
@@ -586,3 +686,52 @@ def check_autodetect_only_when_absent(F, F8):
                 F8.violation(('autodetect-overrides-explicit-flag', x.closure_of or x.path), '%s calls contains_regex_chars() at %s outside the "flag absent" path: an explicit `IsRegex: false` / `enableregexp = 0` is overridden for ids containing regex characters, '
                              'so the same filter matches different messages after a serialise/reload or through another front-end' % (x.path, x.loc(blk.term.sp)), where=x.loc(blk.term.sp))
     F8.floor('auto-detection sites in the filter front-ends', n, 3)
+
+
+# ---------------------------------------------------------------------------------------------
+# F9: the literal ignore-case matcher is an escaped regex
+
+def check_literal_regex_escaped(F, F9):
+    """A payload criterion without the regex flag is a literal.  With ignore-case it is matched through a compiled regex kept in
+    `payload_as_regex` - which is only the same criterion if the text went through `regex::escape` first (`a.c` must not
+    match `abc`, `foo(` must not be a syntax error).  Every value that reaches the field `payload_as_regex` of a Filter
+    (direct store or operand of the construction) and whose provenance contains a regex constructor must also contain
+    regex::escape in that provenance."""
+    from prov import Prov, calls_in
+    n = 0
+    for b in F.order:
+        if b.crate != 'lib' or not b.path.startswith('adlt::filter::') or '::tests' in b.path:
+            continue
+        cfg = pr = None
+        for blk in b.blocks:
+            if blk.cleanup:
+                continue
+            for s in blk.stmts:
+                if s.k != 'assign':
+                    continue
+                ops = []
+                fl = [e for e in s.place.p if e['k'] == 'f']
+                if fl and fl[-1]['n'] == 'payload_as_regex' and fl[-1].get('o') == FILTER:
+                    ops = s.rv_operands()
+                elif s.rv['k'] == 'agg' and s.rv.get('adt') == FILTER and 'payload_as_regex' in (s.rv.get('fields') or []):
+                    ops = [Operand(s.rv['ops'][s.rv['fields'].index('payload_as_regex')])]
+                if not ops:
+                    continue
+                cfg = cfg or CFG(b)
+                pr = pr or Prov(cfg)
+                toks = set()
+                for o in ops:
+                    toks |= pr.operand(o, at=blk.i)
+                calls = calls_in(toks)
+                builds = [c for c in calls if re.search(r'(Regex::new|RegexBuilder::new|RegexBuilder::build)$', c)]
+                if not builds:
+                    continue
+                n += 1
+                F9.sites += 1
+                F9.fn(b.path)
+                if any(c.endswith('regex::escape') for c in calls):
+                    F9.ok(sample={'function': b.path, 'store_at': b.loc(s.sp), 'compiled_from': 'regex::escape(text)'})
+                else:
+                    F9.violation(('literal-regex-not-escaped', b.path), '%s stores into payload_as_regex at %s a regex that is not built from regex::escape(text): the literal payload criterion is interpreted as a regular expression '
+                                 '(`a.c` matches `abc`, `foo(` is rejected) - but only with ignore-case and only through this front-end' % (b.path, b.loc(s.sp)), where=b.loc(s.sp))
+    F9.floor('compiled literal matchers stored into payload_as_regex', n, 1)
